@@ -42,7 +42,7 @@ def replay(spec):
     k2s = [0.3] * N
     kw = {}
     if cond == "list":
-        # as in the harness: dictionaries with different keys (0 sets cnd, 1 nothing, 2 k2, 3 both)
+        # as in the harness: dictionaries with different keys (0 sets cnd, 1 k2, 2 nothing, 3 both)
         pcl = []
         for n in range(N):
             d_ = {}
@@ -51,7 +51,7 @@ def replay(spec):
                 d_["cnd"] = cnds[n]
             else:
                 cnds[n] = 1.0
-            if n % 4 in (2, 3):
+            if n % 4 in (1, 3):
                 k2s[n] = 0.3 + 0.1 * n
                 d_["k2"] = k2s[n]
             pcl.append(d_)
